@@ -13,8 +13,8 @@ ASSUMPTIONS = ["reference vf/ref/ec.py + hashlib", "BSM signing is modelled as d
 NSHARDS = {"quick": 32, "thorough": 64}
 BUDGET_S = {"quick": 200, "thorough": 1800}
 MIN_HITS = {
-    "quick": {"sign": 200, "prefix_nonzero": 80, "len>=253": 40, "len>=65536": 15, "neg": 2500, "uncompressed": 60},
-    "thorough": {"sign": 4000, "prefix_nonzero": 1500, "len>=253": 800, "len>=65536": 200, "neg": 50000, "uncompressed": 1500},
+    'quick': {"sign": 200, "prefix_nonzero": 80, "len>=253": 40, "len>=65536": 15, "neg": 2500, "uncompressed": 60},
+    'thorough': {"sign": 15360, "prefix_nonzero": 10260, "len>=253": 5502, "len>=65536": 230, "neg": 245367, "uncompressed": 6178},
 }
 EDGE = [1, 2, 3, (ec.N - 1) // 2, (ec.N + 1) // 2, ec.N - 2, ec.N - 1]
 MAGIC = b"Bitcoin Signed Message:\n"
@@ -32,7 +32,7 @@ def cases(ctx):
     r = ctx.rnd
     t = ctx.tier == "thorough"
     lens = [0, 1, 252, 253, 254, 65535, 65536, 65537, 100000]
-    for i in range(400 if t else 8):
+    for i in range(1500 if t else 8):
         x = r.choice(EDGE) if r.random() < 0.3 else r.randrange(1, ec.N)
         L = lens[i % len(lens)] if i < 2 * len(lens) and (t or i < 9) else r.choice([5, 20, 100, 300, r.randrange(0, 1000)])
         yield {"k": "bsm", "x": "%064x" % x, "compressed": r.random() < 0.6, "msg": gen.rbytes(r, L).hex(), "prefix": r.choice([0, 0x6F, r.randrange(256)]), "other": "%064x" % r.randrange(1, ec.N), "nonce": ("%064x" % r.randrange(1, ec.N)) if r.random() < 0.25 else None, "seed": r.getrandbits(30)}
